@@ -17,12 +17,15 @@
 EXTENDS Integers, FiniteSets, Sequences, TLC, Json
 CONSTANTS MaxRetrans,      \* retransmissions after the first transmission (5 in the code)
           MaxDeliveries,   \* bound on adversary deliveries
-          Rounds, MaxOps
+          Rounds, MaxOps,
+          MaxSlow,         \* how many retransmissions may linger in the single TX buffer (a slow network send)
+          Recheck          \* TRUE = as the code: the sender re-checks "still unacknowledged?" after it got the TX buffer
 
 Nodes == {"A", "B"}
 Peer(n) == IF n = "A" THEN "B" ELSE "A"
 NONE == [ctr |-> -1, cnt |-> 0, id |-> 0]
 NOACK == [ctr |-> -1, acked |-> FALSE]
+NOPKT == [from |-> "-"]
 VARIABLES retrans, ack,      \* per node: ReliableMessage.retrans / .ack of the exchange
           txCtr,             \* per node: session send counter
           rxSeen,            \* per node: counters accepted by the session receive window
@@ -32,15 +35,20 @@ VARIABLES retrans, ack,      \* per node: ReliableMessage.retrans / .ack of the 
           app, round,        \* application state
           result,            \* per node: result of its last send ("" | "ok" | "timeout")
           log,               \* per node: ids the application received, in order
-          deliveries, sentCtr, nops, h
-vars == <<retrans, ack, txCtr, rxSeen, net, lost, rxq, app, round, result, log, deliveries, sentCtr, nops, h>>
-view == <<retrans, ack, txCtr, rxSeen, net, lost, rxq, app, round, result, log, deliveries, sentCtr>>
+          deliveries, sentCtr, nops, h,
+          outbox,            \* per node: the datagram sitting in the single TX buffer while the network send is slow (or NOPKT)
+          want,              \* per node: the back-off fired and the sender is queued for the TX buffer
+          slowLeft, lastId
+vars == <<retrans, ack, txCtr, rxSeen, net, lost, rxq, app, round, result, log, deliveries, sentCtr, nops, h, outbox, want, slowLeft, lastId>>
+view == <<retrans, ack, txCtr, rxSeen, net, lost, rxq, app, round, result, log, deliveries, sentCtr, outbox, want, slowLeft, lastId>>
+TxVars == <<outbox, want, slowLeft, lastId>>
 
 Init == /\ retrans = [n \in Nodes |-> NONE] /\ ack = [n \in Nodes |-> NOACK]
         /\ txCtr = [A |-> 10, B |-> 50] /\ rxSeen = [n \in Nodes |-> {}] /\ net = {} /\ lost = {}
         /\ rxq = [n \in Nodes |-> 0] /\ app = [A |-> "idle", B |-> "recving"] /\ round = 1
         /\ result = [n \in Nodes |-> ""] /\ log = [n \in Nodes |-> <<>>]
         /\ deliveries = 0 /\ sentCtr = [n \in Nodes |-> -1] /\ nops = 0 /\ h = <<>>
+        /\ outbox = [n \in Nodes |-> NOPKT] /\ want = [n \in Nodes |-> FALSE] /\ slowLeft = MaxSlow /\ lastId = [n \in Nodes |-> 0]
 
 Pkt(n, c, rel, a, kind, id) == [from |-> n, to |-> Peer(n), ctr |-> c, rel |-> rel, ack |-> a, kind |-> kind, id |-> id]
 Log(op) == h' = Append(h, op) /\ nops' = nops + 1
@@ -48,7 +56,8 @@ MsgId(n) == IF n = "A" THEN 2 * round - 1 ELSE 2 * round
 
 \* Exchange::send, first transmission: ReliableMessage::pre_send piggy-backs the pending ack and creates the entry
 AppSend(n) ==
-  /\ app[n] = "idle" /\ retrans[n] = NONE
+  /\ app[n] = "idle" /\ retrans[n] = NONE /\ outbox[n] = NOPKT
+  /\ lastId' = [lastId EXCEPT ![n] = MsgId(n)] /\ UNCHANGED <<outbox, want, slowLeft>>
   /\ net' = net \cup {Pkt(n, txCtr[n], TRUE, ack[n].ctr, "data", MsgId(n))}
   /\ retrans' = [retrans EXCEPT ![n] = [ctr |-> txCtr[n], cnt |-> 0, id |-> MsgId(n)]]
   /\ ack' = [ack EXCEPT ![n] = IF @.ctr = -1 THEN @ ELSE [@ EXCEPT !.acked = TRUE]]
@@ -57,22 +66,50 @@ AppSend(n) ==
   /\ nops' = nops /\ h' = h
   /\ UNCHANGED <<rxSeen, lost, rxq, round, log, deliveries>>
 
-\* the back-off timer of the sender fires: rebuild (same counter, ack re-stamped) and retransmit, or give up
+\* the back-off timer of the sender fires: rebuild (same counter, ack re-stamped) and retransmit, or give up.
+\* Exchange::send -> Sender::tx: with the single TX buffer occupied (a slow network send) the sender queues for it.
+Retransmit(n, slow) ==
+  LET p == Pkt(n, retrans[n].ctr, TRUE, ack[n].ctr, "data", retrans[n].id) IN
+  /\ IF slow THEN /\ outbox' = [outbox EXCEPT ![n] = p] /\ slowLeft' = slowLeft - 1 /\ UNCHANGED net
+             ELSE /\ net' = net \cup {p} /\ UNCHANGED <<outbox, slowLeft>>
+  /\ retrans' = [retrans EXCEPT ![n].cnt = @ + 1]
+  /\ ack' = [ack EXCEPT ![n] = IF @.ctr = -1 THEN @ ELSE [@ EXCEPT !.acked = TRUE]]
 Timeout(n) ==
-  /\ app[n] = "sending" /\ retrans[n] # NONE
+  /\ app[n] = "sending" /\ retrans[n] # NONE /\ ~want[n]
   /\ IF retrans[n].cnt < MaxRetrans
-     THEN /\ net' = net \cup {Pkt(n, retrans[n].ctr, TRUE, ack[n].ctr, "data", retrans[n].id)}
-          /\ retrans' = [retrans EXCEPT ![n].cnt = @ + 1]
-          /\ ack' = [ack EXCEPT ![n] = IF @.ctr = -1 THEN @ ELSE [@ EXCEPT !.acked = TRUE]]
-          /\ UNCHANGED <<app, result>>
+     THEN IF outbox[n] # NOPKT
+          THEN /\ want' = [want EXCEPT ![n] = TRUE] /\ Log([op |-> "Timeout", n |-> n, slow |-> FALSE, busy |-> TRUE])
+               /\ UNCHANGED <<retrans, ack, net, outbox, slowLeft, app, result, txCtr>>
+          ELSE \E slow \in (IF slowLeft > 0 THEN BOOLEAN ELSE {FALSE}) :
+               /\ Retransmit(n, slow) /\ Log([op |-> "Timeout", n |-> n, slow |-> slow, busy |-> FALSE])
+               /\ UNCHANGED <<want, app, result, txCtr>>
      ELSE /\ retrans' = [retrans EXCEPT ![n] = NONE] /\ ack' = [ack EXCEPT ![n] = NOACK]
           /\ app' = [app EXCEPT ![n] = "done"] /\ result' = [result EXCEPT ![n] = "timeout"]
-          /\ UNCHANGED net
-  /\ Log([op |-> "Timeout", n |-> n])
-  /\ UNCHANGED <<txCtr, rxSeen, lost, rxq, round, log, deliveries, sentCtr>>
+          /\ Log([op |-> "Timeout", n |-> n, slow |-> FALSE, busy |-> FALSE])
+          /\ UNCHANGED <<net, outbox, want, slowLeft, txCtr>>
+  /\ UNCHANGED <<rxSeen, lost, rxq, round, log, deliveries, sentCtr, lastId>>
+\* the slow network send completes: the datagram reaches the wire and the TX buffer is free again
+SendComplete(n) ==
+  /\ outbox[n] # NOPKT /\ net' = net \cup {outbox[n]} /\ outbox' = [outbox EXCEPT ![n] = NOPKT]
+  /\ Log([op |-> "SendComplete", n |-> n])
+  /\ UNCHANGED <<retrans, ack, txCtr, rxSeen, lost, rxq, app, round, result, log, deliveries, sentCtr, want, slowLeft, lastId>>
+\* the queued sender gets the TX buffer.  As the code: it looks again whether the message is still unacknowledged -
+\* the acknowledgement may have arrived while it was queued.  (Recheck = FALSE: it sends regardless; with the entry
+\* gone the message goes out as a new one, under a fresh counter.)
+RetransGo(n) ==
+  /\ want[n] /\ outbox[n] = NOPKT /\ want' = [want EXCEPT ![n] = FALSE]
+  /\ IF retrans[n] # NONE
+     THEN /\ Retransmit(n, FALSE) /\ UNCHANGED <<txCtr, sentCtr>>
+     ELSE IF Recheck THEN UNCHANGED <<retrans, ack, net, outbox, slowLeft, txCtr, sentCtr>>
+     ELSE /\ net' = net \cup {Pkt(n, txCtr[n], TRUE, ack[n].ctr, "data", lastId[n])}
+          /\ retrans' = [retrans EXCEPT ![n] = [ctr |-> txCtr[n], cnt |-> 0, id |-> lastId[n]]]
+          /\ txCtr' = [txCtr EXCEPT ![n] = @ + 1] /\ sentCtr' = [sentCtr EXCEPT ![n] = txCtr[n]]
+          /\ UNCHANGED <<ack, outbox, slowLeft>>
+  /\ nops' = nops /\ h' = h
+  /\ UNCHANGED <<rxSeen, lost, rxq, app, round, result, log, deliveries, lastId>>
 
 \* Exchange::send returns Ok once the retransmission entry was cleared by an acknowledgement
-SendDone(n) == /\ app[n] = "sending" /\ retrans[n] = NONE
+SendDone(n) == /\ app[n] = "sending" /\ retrans[n] = NONE /\ ~want[n] /\ UNCHANGED TxVars
                /\ result' = [result EXCEPT ![n] = "ok"]
                /\ app' = [app EXCEPT ![n] = IF n = "A" THEN "recving" ELSE IF round < Rounds THEN "recving" ELSE "done"]
                /\ round' = IF n = "B" /\ round < Rounds THEN round ELSE round
@@ -103,12 +140,12 @@ Deliver(p) ==
                 /\ rxq' = [rxq EXCEPT ![n] = IF p.kind = "data" THEN p.id ELSE @]
                 /\ UNCHANGED <<net, txCtr>>
   /\ Log([op |-> "Deliver", from |-> p.from, k |-> p.ctr - (IF p.from = "A" THEN 10 ELSE 50), rep |-> Cardinality({q \in net : q.from = p.from /\ q.ctr = p.ctr})])
-  /\ UNCHANGED <<lost, app, round, result, log, sentCtr>>
+  /\ UNCHANGED <<lost, app, round, result, log, sentCtr>> /\ UNCHANGED TxVars
 
 \* the adversary drops every copy of datagram p that is still in the network
 Drop(p) == /\ p \in net /\ p \notin lost /\ lost' = lost \cup {p}
            /\ Log([op |-> "Drop", from |-> p.from, k |-> p.ctr - (IF p.from = "A" THEN 10 ELSE 50)])
-           /\ UNCHANGED <<retrans, ack, txCtr, rxSeen, net, rxq, app, round, result, log, deliveries, sentCtr>>
+           /\ UNCHANGED <<retrans, ack, txCtr, rxSeen, net, rxq, app, round, result, log, deliveries, sentCtr>> /\ UNCHANGED TxVars
 
 AppRecv(n) == /\ app[n] = "recving" /\ rxq[n] # 0
               /\ rxq' = [rxq EXCEPT ![n] = 0]
@@ -116,10 +153,10 @@ AppRecv(n) == /\ app[n] = "recving" /\ rxq[n] # 0
               /\ app' = [app EXCEPT ![n] = IF n = "B" THEN "idle" ELSE IF round < Rounds THEN "idle" ELSE "acking"]
               /\ round' = IF n = "A" /\ round < Rounds THEN round + 1 ELSE round
               /\ nops' = nops /\ h' = h
-              /\ UNCHANGED <<retrans, ack, txCtr, rxSeen, net, lost, result, deliveries, sentCtr>>
+              /\ UNCHANGED <<retrans, ack, txCtr, rxSeen, net, lost, result, deliveries, sentCtr>> /\ UNCHANGED TxVars
 
 \* Exchange::acknowledge(): a stand-alone ack if one is still owed
-AppAck(n) == /\ app[n] = "acking"
+AppAck(n) == /\ app[n] = "acking" /\ outbox[n] = NOPKT /\ UNCHANGED TxVars
              /\ IF ack[n].ctr # -1 /\ ~ack[n].acked
                 THEN /\ net' = net \cup {StandaloneAck(n, ack[n].ctr)}
                      /\ txCtr' = [txCtr EXCEPT ![n] = @ + 1] /\ ack' = [ack EXCEPT ![n].acked = TRUE]
@@ -129,7 +166,7 @@ AppAck(n) == /\ app[n] = "acking"
              /\ UNCHANGED <<retrans, rxSeen, lost, rxq, round, result, log, deliveries, sentCtr>>
 
 Next == /\ nops < MaxOps
-        /\ \/ \E n \in Nodes : AppSend(n) \/ Timeout(n) \/ SendDone(n) \/ AppRecv(n) \/ AppAck(n)
+        /\ \/ \E n \in Nodes : AppSend(n) \/ Timeout(n) \/ SendDone(n) \/ AppRecv(n) \/ AppAck(n) \/ SendComplete(n) \/ RetransGo(n)
            \/ \E p \in net : Deliver(p) \/ Drop(p)
 Spec == Init /\ [][Next]_vars
 
